@@ -33,6 +33,12 @@ impl Dy {
         }
     }
     pub fn add(self, o: Dy) -> Dy {
+        if self.num == 0 {
+            return o;
+        }
+        if o.num == 0 {
+            return self;
+        }
         let e = self.exp.max(o.exp);
         let a = self.num.checked_shl(e - self.exp).expect("HARNESS: dyadic overflow");
         let b = o.num.checked_shl(e - o.exp).expect("HARNESS: dyadic overflow");
